@@ -1,6 +1,6 @@
 (* C07 - Exit status 0 means everything was applied; every failure is reported.  Statements only. *)
 From RJ Require Import Base.Prelude Base.OrderedPlan Model.Settings Model.Core Model.Fs Model.Paths Model.Sync Model.SyncTop
-  Proofs.ExecProofs Proofs.DryProofs Proofs.CrashProofs Proofs.CrashMain Proofs.ReportProofs Proofs.TouchedProofs Proofs.InstanceProofs.
+  Proofs.ExecProofs Proofs.DryProofs Proofs.CrashProofs Proofs.CrashMain Proofs.ReportProofs Proofs.TouchedProofs Proofs.InstanceProofs Model.Async Proofs.AsyncProofs.
 
 (* sync() returns Ok (a real run, the root not skipped) only if EVERY step of the confirmed plan was carried
    out: every planned command sent, executed and answered without error, every source file fetched; the
@@ -56,6 +56,42 @@ Theorem C07_only_planned_changes : forall now_z normalize chunker,
    T (r_dest (sync_one now_z normalize chunker cfg S D ans bits ls ld ft))).
 Proof. exact only_planned_changes. Qed.
 
+(* The asynchrony itself, as a two-process model (Model/Async.v): the boss streams commands and looks at
+   replies now and then, the doer executes and answers in order, every interleaving is a path.  On EVERY
+   path: Ok only after the doer has executed the whole plan without a single error reply; an error answered
+   at ANY time - also after the boss has already sent its final marker - is never lost; and whenever the
+   boss stops, the doer's world is the sequential execution of a prefix of the plan. *)
+Theorem C07_async_ok_sound : forall exec d0 steps s,
+  areach exec (ainit d0 steps) s -> a_boss s = BOk ->
+  a_done s = dest_cmds steps /\ a_d s = run_all exec d0 (dest_cmds steps) /\
+  errs_all exec d0 (dest_cmds steps) = [] /\ a_queue s = [].
+Proof. exact async_ok_sound. Qed.
+
+Theorem C07_async_no_error_lost : forall exec d0 steps s,
+  areach exec (ainit d0 steps) s -> a_errs s <> [] -> a_boss s <> BOk.
+Proof. exact async_no_error_lost. Qed.
+
+Theorem C07_async_prefix : forall exec d0 steps s,
+  areach exec (ainit d0 steps) s -> a_d s = run_all exec d0 (a_done s) /\
+  (a_boss s <> BFail -> exists rest, dest_cmds steps = a_done s ++ rest).
+Proof. exact async_prefix. Qed.
+
+(* a late error: the only command fails after the boss has already sent the final marker and is waiting *)
+Example C07_async_late_error :
+  let d0 := world [([], NFolder)] AncOk [] in
+  let c := CDeleteFile [["x"%char]] in
+  exists s, areach (doer_exec Unix) (ainit d0 [DestCmd c]) s /\ a_boss s = BFail /\ a_errs s = [ENoEnt].
+Proof.
+  cbv zeta. eexists. split.
+  - eapply ar_step. eapply ar_step. eapply ar_step. eapply ar_step. eapply ar_step. apply ar_refl.
+    + apply st_boss_send.
+    + apply st_boss_finish.
+    + apply st_doer_cmd.
+    + apply st_doer_done.
+    + cbn. apply st_boss_sees_error_waiting.
+  - split; reflexivity.
+Qed.
+
 (* Non-vacuity: a run whose LAST command fails (a write fault on the final chunk of the last file) is Ok
    in everything before it and still fails; the same run without the fault is Ok and its census matches. *)
 Definition c07_S : fs := [ ([], NFolder); ([["a"%char]], NFile (TSet 10) ["x"%char]); ([["b"%char]], NFile (TSet 11) ["y"%char; "z"%char]) ].
@@ -74,3 +110,6 @@ Print Assumptions C07_no_error_dropped.
 Print Assumptions C07_failure_is_reported.
 Print Assumptions C07_summary_is_census.
 Print Assumptions C07_only_planned_changes.
+Print Assumptions C07_async_ok_sound.
+Print Assumptions C07_async_no_error_lost.
+Print Assumptions C07_async_prefix.
